@@ -343,6 +343,15 @@ func wfaultWorker(p *wfaultParams, st *Stats) {
 		}
 		items = append(items, item{doc: genLarge(g, c, target), stride: largeStride, large: true})
 	}
+	// documents with one chunk larger than goldmark's internal buffer
+	nLongLine := 8
+	if p.tier == "thorough" {
+		nLongLine = 60
+	}
+	firstLongLine := len(items)
+	for i := 0; i < nLongLine; i++ {
+		items = append(items, item{doc: genLongLine(g), stride: largeStride, large: true})
+	}
 	allOn := Config{GFM: true, DefList: true, Footnote: true, Typographer: true, CJK: "default", AutoID: true, Attribute: true}
 	if p.ctl == nil {
 		curProc = &ProcHistory{Tier: p.tier, Shard: p.shard, Of: p.of}
@@ -362,14 +371,17 @@ func wfaultWorker(p *wfaultParams, st *Stats) {
 		if r.Chance(1, 3) {
 			cfgs[0] = Config{}
 		}
+		if i >= firstLongLine && r.Chance(2, 3) {
+			cfgs[0].Unsafe = true // raw HTML lines are written in one piece
+		}
 		for _, cfg := range cfgs {
 			paths := []string{"Convert", "ParseRender"}
 			if cfg.IsDefault() {
 				paths = append(paths, "PkgConvert")
 			}
-			stacks := []string{"W1", fmt.Sprintf("W2:%d", pick(r, w2Sizes)), "W3"}
+			stacks := []string{"W1", fmt.Sprintf("W2:%d", pick(r, w2Sizes)), "W3", pick(r, []string{"W1f", "W1s", "W1b"})}
 			if p.tier == "thorough" {
-				stacks = []string{"W1", "W2:16", "W2:17", "W2:64", "W2:4096", "W2:65536", "W3"}
+				stacks = []string{"W1", "W2:16", "W2:17", "W2:64", "W2:4096", "W2:65536", "W3", "W1f", "W1s", "W1b"}
 			}
 			exPi, exSi := r.Intn(len(paths)), r.Intn(len(stacks))
 			for pi, kind := range paths {
